@@ -34,6 +34,18 @@ func main() {
 		os.Exit(cmdCheck(os.Args[2:]))
 	case "replay":
 		os.Exit(cmdReplay(os.Args[2:]))
+	case "run-test":
+		// govc run-test <package path> <test file> : run an in-package replay test through an overlay
+		if len(os.Args) < 4 {
+			usage()
+		}
+		dir, _ := os.MkdirTemp("", "govc-rt")
+		defer os.RemoveAll(dir)
+		outcome, raw := runReplayTest(nil, os.Args[2], os.Args[3], dir)
+		fmt.Println("replay outcome:", outcome)
+		if outcome == "" {
+			fmt.Println(tail(raw, 3000))
+		}
 	case "selftest":
 		os.Exit(cmdSelftest(os.Args[2:]))
 	default:
